@@ -15,4 +15,6 @@ import (
 func init() {
 	engine.SeamReset = verifhook.SeamReset
 	engine.SeamStats = verifhook.SeamStats
+	engine.SeamAdvance = verifhook.Advance
+	engine.SeamTimers = verifhook.TimersMade
 }
